@@ -38,8 +38,18 @@ def parseCtlOp (ws : List String) : Option CtlOp :=
   match ws with
   | ["reg", a, u, rev, reb, "|", sok, alive, el] =>
     do some (.register ⟨a, if u = "-" then "" else u, ← rev.toNat?, b01 reb⟩ (b01 sok) (b01 alive) (if el = "-" then "" else el))
-  | ["start", a, "|", cok, size, swo, clone, srw, rev, ch, sf] =>
-    do some (.start a (b01 cok) (← size.toNat?) (b01 swo) clone (b01 srw) (if rev = "-" then none else rev.toNat?) (parseCk ch sf))
+  | ["start", addrs, "|", envs, ch, sf] =>
+    -- one `createOk:size:setWoOk:clone:setRwOk:rev` per address, separated by `;`
+    let as := splitList addrs
+    let es := if envs = "-" then [] else envs.splitOn ";"
+    if as.length ≠ es.length then none else
+    do
+      let l ← (as.zip es).mapM fun (a, e) =>
+        match e.splitOn ":" with
+        | [cok, size, swo, clone, srw, rev] =>
+          do some (⟨a, b01 cok, ← size.toNat?, b01 swo, clone, b01 srw, if rev = "-" then none else rev.toNat?⟩ : StartEnv)
+        | _ => none
+      some (.start l (parseCk ch sf))
   | ["add", a, "|", tk, cok, sfails, nsok, swo, ch, sf] =>
     some (.add a (if tk = "-" then none else some (b01 tk)) (b01 cok) (splitList sfails) (b01 nsok) (b01 swo) (parseCk ch sf))
   | ["addpre", a, "|", tk] => some (.addPre a (if tk = "-" then none else some (b01 tk)))
